@@ -205,6 +205,16 @@ ExpectedComponents(p) == { [name |-> BareName(n), schema |-> SchemaOf(p, TypeNam
 \* two reachable declarations sharing a bare name collapse into one component key (outside the property's bijection)
 NameClash(p) == \E a, b \in Reachable(p) : a # b /\ BareName(a) = BareName(b)
 
+\* ---- C15 at the project level: which methods must receive a route-conflict warning -------------------------------------------
+SegsOf(path) == LET parts == Split(path, "/") IN SelectSeq(parts, LAMBDA x : x # "")
+IsParamSeg(x) == Len(x) >= 2 /\ Ch(x, 1) = "{" /\ Ch(x, Len(x)) = "}"
+OverlapPaths(a, b) == LET sa == SegsOf(a) sb == SegsOf(b) IN
+                      Len(sa) = Len(sb) /\ \A i \in DOMAIN sa : sa[i] = sb[i] \/ IsParamSeg(sa[i]) \/ IsParamSeg(sb[i])
+ConflictingMethods(p) ==
+    { m.name : m \in { x \in Range(p.methods) : IsApi(x) /\
+                          \E y \in Range(p.methods) : y # x /\ IsApi(y) /\ y.verb = x.verb
+                                /\ OverlapPaths(NormPath(CtrlOf(p, x), x), NormPath(CtrlOf(p, y), y)) } }
+
 \* ---- C10 ------------------------------------------------------------------------
 SeqToBag(s, x) == Cardinality({i \in DOMAIN s : s[i] = x})
 PathAnns(m)  == {i \in DOMAIN m.anns : m.anns[i].kind = "Path"}
